@@ -424,4 +424,288 @@ theorem put_idempotent (v : V) (p : Path) (x : V) (pre : Bool) (nv prev : V)
     rw [put_doc_hit hk hi' (by rfl) (ih _ _ hc) hnm]
     simp
 
+/-! ### Put / Unset on documents: no panic, shape of the result -/
+
+/-- only an empty path makes `put` return the "remove me" marker or a non-container. -/
+theorem put_cons_container (v : V) (key : String) (rest : Path) (x : V) (pre : Bool) (nv prev : V)
+    (h : put v (key :: rest) x pre = .ok (nv, prev)) : (∃ fs, nv = .doc fs) ∨ (∃ xs, nv = .arr xs) := by
+  generalize hp : key :: rest = p at h
+  fun_induction put v p x pre <;> cases h <;> cases hp <;>
+    first | exact .inl ⟨_, rfl⟩ | exact .inr ⟨_, rfl⟩
+
+theorem put_missing_nil (v : V) (p : Path) (x : V) (pre : Bool) (nv prev : V)
+    (h : put v p x pre = .ok (nv, prev)) (hm : nv.isMissing = true) : p = [] := by
+  cases p with
+  | nil => rfl
+  | cons key rest =>
+    rcases put_cons_container _ _ _ _ _ _ _ h with ⟨_, e⟩ | ⟨_, e⟩ <;> (rw [e] at hm; cases hm)
+
+/-- `bsonkit.Put` never panics on a non-empty path (the type assertion `v.(bson.D)` holds). -/
+theorem Put_error_err (d : Doc) (p : Path) (x : V) (pre : Bool) (e : Err) (hp : p ≠ [])
+    (h : Put d p x pre = .error e) : e = .err := by
+  unfold Put at h
+  split at h
+  · cases h; rfl
+  · split at h
+    · cases h
+    · rename_i hput
+      cases p with
+      | nil => exact absurd rfl hp
+      | cons key rest =>
+        obtain ⟨fs', e'⟩ := put_doc_isDoc _ _ _ _ _ _ _ hput
+        rename_i hne
+        exact (hne _ e').elim
+    · rename_i hput; cases h; exact put_error_err _ _ _ _ _ hput
+
+theorem Put_ok_iff (d : Doc) (key : String) (rest : Path) (x : V) (pre : Bool) (d' : Doc) (prev : V) :
+    Put d (key :: rest) x pre = .ok (d', prev) ↔
+      (x.isMissing = false ∧ put (.doc d) (key :: rest) x pre = .ok (.doc d', prev)) := by
+  unfold Put
+  constructor
+  · intro h
+    split at h
+    · cases h
+    · rename_i hx
+      split at h
+      · rename_i hput; cases h; exact ⟨by simpa using hx, hput⟩
+      · cases h
+      · cases h
+  · rintro ⟨hx, hput⟩
+    simp [hx, hput]
+
+/-- shape of a successful `put` on a document: the addressed field is replaced in place, removed,
+    or (when absent) added at the front (`prepend`) or at the end; nothing else moves. -/
+theorem put_doc_shape (fs : List (String × V)) (key : String) (rest : Path) (x : V) (pre : Bool)
+    (nv prev : V) (h : put (.doc fs) (key :: rest) x pre = .ok (nv, prev)) :
+    match fieldIndex fs key with
+    | some i => ∃ old, fs[i]? = some (key, old) ∧
+        ((x.isMissing = true ∧ nv = .doc (fs.eraseIdx i)) ∨ ∃ nvc, nv = .doc (fs.set i (key, nvc)))
+    | none => x.isMissing = false ∧ ∃ nvc, nv = .doc (if pre then (key, nvc) :: fs else fs ++ [(key, nvc)]) := by
+  generalize hv : V.doc fs = v at h
+  generalize hp : key :: rest = p at h
+  fun_induction put v p x pre <;> cases h <;> cases hp <;> cases hv
+  · rename_i i kk old nvc hm hc hk he hi ih
+    have hkey := fieldIndex_some_key hi he
+    subst hkey
+    rw [hi]
+    refine ⟨old, he, .inl ⟨?_, rfl⟩⟩
+    cases hx : x.isMissing with
+    | true => rfl
+    | false => rw [put_not_missing _ _ _ _ _ _ hc hx] at hm; cases hm
+  · rename_i i kk old nvc hm hc hk he hi ih
+    have hkey := fieldIndex_some_key hi he
+    subst hkey
+    rw [hi]
+    exact ⟨old, he, .inr ⟨nvc, by rw [listSet_eq_set]⟩⟩
+  · rename_i hvm nvc pv hpre hc hk hi ih
+    rw [hi]
+    exact ⟨by simpa using hvm, nvc, by simp [hpre]⟩
+  · rename_i hvm nvc pv hpre hc hk hi ih
+    rw [hi]
+    exact ⟨by simpa using hvm, nvc, by simp [hpre]⟩
+
+/-- `Unset` result in terms of `put`. -/
+theorem Unset_eq (d : Doc) (key : String) (rest : Path) :
+    Unset d (key :: rest) =
+      match put (.doc d) (key :: rest) .missing false with
+      | .ok (nv, prev) => (match nv with | .doc d' => (d', prev) | _ => (d, .missing))
+      | .error _ => (d, .missing) := by
+  unfold Unset
+  split
+  · rename_i h; rw [h]
+  · rename_i hne
+    split
+    · split
+      · rename_i h; exact (hne _ _ h).elim
+      · rfl
+    · rfl
+
+/-! ### Unset: idempotence and read-back (documents without duplicate keys) -/
+
+mutual
+/-- no document inside the value has two fields with the same key. -/
+def V.nodupKeys : V → Bool
+  | .doc fs => nodupFields fs
+  | .arr xs => nodupList xs
+  | _ => true
+def nodupFields : List (String × V) → Bool
+  | [] => true
+  | (k, v) :: r => !(r.any fun kv => kv.1 == k) && v.nodupKeys && nodupFields r
+def nodupList : List V → Bool
+  | [] => true
+  | v :: r => v.nodupKeys && nodupList r
+end
+
+theorem nodupFields_getElem {fs : List (String × V)} {i : Nat} {k : String} {v : V}
+    (h : nodupFields fs = true) (he : fs[i]? = some (k, v)) : v.nodupKeys = true := by
+  induction fs generalizing i with
+  | nil => simp at he
+  | cons a r ih =>
+    obtain ⟨k', v'⟩ := a
+    simp only [nodupFields, Bool.and_eq_true] at h
+    cases i with
+    | zero => simp at he; rw [← he.2]; exact h.1.2
+    | succ n => simp at he; exact ih h.2 he
+
+theorem nodupList_getElem {xs : List V} {i : Nat} {v : V}
+    (h : nodupList xs = true) (he : xs[i]? = some v) : v.nodupKeys = true := by
+  induction xs generalizing i with
+  | nil => simp at he
+  | cons a r ih =>
+    simp only [nodupList, Bool.and_eq_true] at h
+    cases i with
+    | zero => simp at he; rw [← he]; exact h.1
+    | succ n => simp at he; exact ih h.2 he
+
+theorem fieldIndex_none_iff {fs : List (String × V)} {key : String} :
+    fieldIndex fs key = none ↔ (fs.any fun kv => kv.1 == key) = false := by
+  unfold fieldIndex
+  rw [List.findIdx?_eq_none_iff]
+  simp
+
+/-- without duplicate keys, removing the first field named `key` leaves no field named `key`. -/
+theorem fieldIndex_eraseIdx {fs : List (String × V)} {key : String} {i : Nat}
+    (h : nodupFields fs = true) (hi : fieldIndex fs key = some i) :
+    fieldIndex (fs.eraseIdx i) key = none := by
+  induction fs generalizing i with
+  | nil => simp [fieldIndex] at hi
+  | cons a r ih =>
+    obtain ⟨k', v'⟩ := a
+    simp only [nodupFields, Bool.and_eq_true] at h
+    rw [fieldIndex_cons] at hi
+    by_cases hk : (k' == key) = true
+    · simp only [hk, if_true] at hi
+      injection hi with hi; subst hi
+      simp only [List.eraseIdx_zero, List.tail_cons]
+      rw [fieldIndex_none_iff]
+      have := h.1.1
+      simp at hk; subst hk
+      simpa using this
+    · simp only [hk, if_false, Bool.false_eq_true] at hi
+      cases hj : fieldIndex r key with
+      | none => rw [hj] at hi; cases hi
+      | some j =>
+        rw [hj] at hi; simp at hi; subst hi
+        simp only [List.eraseIdx_cons_succ]
+        rw [fieldIndex_cons]
+        simp only [hk, if_false, Bool.false_eq_true]
+        rw [ih h.2 hj]; rfl
+
+theorem put_null (p : Path) (pre : Bool) :
+    put .null p .missing pre = .ok (.missing, .null) ∨ ∃ e, put .null p .missing pre = .error e := by
+  cases p with
+  | nil => left; exact put_nil _ _ _
+  | cons a r => right; simp only [put]; split <;> exact ⟨_, rfl⟩
+
+/-- Unsetting a second time either fails (nothing to remove) or changes nothing. -/
+theorem put_missing_twice (v : V) (p : Path) (pre : Bool) (nv prev : V)
+    (h : put v p .missing pre = .ok (nv, prev)) (hn : v.nodupKeys = true) :
+    (∃ e, put nv p .missing pre = .error e) ∨ (∃ pv, put nv p .missing pre = .ok (nv, pv)) := by
+  generalize hx : V.missing = x at h
+  fun_induction put v p x pre generalizing nv prev <;> cases h <;> subst hx
+  · right; exact ⟨_, put_nil _ _ _⟩
+  · -- field removed
+    rename_i key rest hk fs i hi kk old he nvc pv hc hm ih
+    left
+    simp only [V.nodupKeys] at hn
+    have := fieldIndex_eraseIdx hn hi
+    rw [put]; simp only [hk, this]; exact ⟨_, rfl⟩
+  · rename_i key rest hk fs i hi kk old he nvc pv hc hm ih
+    simp only [V.nodupKeys] at hn
+    have hlt := fieldIndex_some_lt hi
+    rw [listSet_eq_set]
+    have hi' : fieldIndex (fs.set i (kk, nvc)) key = some i := by rw [fieldIndex_set nvc he]; exact hi
+    have he' : (fs.set i (kk, nvc))[i]? = some (kk, nvc) := by simp [hlt]
+    rcases ih _ _ (nodupFields_getElem hn he) hc with ⟨e, h'⟩ | ⟨pv', h'⟩
+    · left; rw [put]; simp only [hk, hi', he', h']; exact ⟨_, rfl⟩
+    · right
+      rw [put_doc_hit hk hi' he' h' (by simpa using hm)]
+      exact ⟨_, by simp⟩
+  · exact absurd rfl ‹¬ V.missing.isMissing = true›
+  · exact absurd rfl ‹¬ V.missing.isMissing = true›
+  · -- array element
+    rename_i key rest hk xs index ha hr idx hlt old he nvc pv hc ih
+    have hidx : idx = index.toNat := rfl
+    clear_value idx; subst hidx
+    simp only [V.nodupKeys] at hn
+    simp only [listSet_eq_set]
+    cases hm : nvc.isMissing with
+    | true =>
+      simp only [if_true]
+      have he' : (xs.set index.toNat V.null)[index.toNat]? = some .null := by simp [hlt]
+      have hlt' : index.toNat < (xs.set index.toNat V.null).length := by simpa using hlt
+      rcases put_null rest pre with h' | ⟨e, h'⟩
+      · right
+        rw [put]; simp only [hk, ha, hr, hlt', he', h', listSet_eq_set]
+        refine ⟨.null, ?_⟩
+        simp [V.isMissing]
+      · left
+        rw [put]; simp only [hk, ha, hr, hlt', he', h']
+        exact ⟨_, by simp⟩
+    | false =>
+      simp only [Bool.false_eq_true, if_false]
+      have he' : (xs.set index.toNat nvc)[index.toNat]? = some nvc := by simp [hlt]
+      have hlt' : index.toNat < (xs.set index.toNat nvc).length := by simpa using hlt
+      rcases ih _ _ (nodupList_getElem hn he) hc with ⟨e, h'⟩ | ⟨pv', h'⟩
+      · left
+        rw [put]; simp only [hk, ha, hr, hlt', he', h']
+        exact ⟨_, by simp⟩
+      · right
+        rw [put_arr_hit hk ha hr he' h' hm]
+        exact ⟨_, by simp⟩
+  · exact absurd rfl ‹¬ V.missing.isMissing = true›
+  · exact absurd rfl ‹¬ V.missing.isMissing = true›
+
+theorem get_null (p : Path) (c k : Bool) : get .null p c k = (.null, false) ∨ get .null p c k = (.missing, false) := by
+  cases p with
+  | nil => left; exact get_nil _ _ _
+  | cons a r => right; simp only [get]; split <;> rfl
+
+/-- after a successful unset the path reads Missing (field removed) or null (array element). -/
+theorem get_after_unset (v : V) (p : Path) (pre : Bool) (nv prev : V) (k : Bool)
+    (h : put v p .missing pre = .ok (nv, prev)) (hn : v.nodupKeys = true) :
+    get nv p false k = (.missing, false) ∨ get nv p false k = (.null, false) := by
+  generalize hx : V.missing = x at h
+  fun_induction put v p x pre generalizing nv prev <;> cases h <;> subst hx
+  · left; exact get_nil _ _ _
+  · rename_i key rest hk fs i hi kk old he nvc pv hc hm ih
+    left
+    simp only [V.nodupKeys] at hn
+    rw [get_cons_doc _ _ _ _ _ hk, getField_eq, fieldIndex_eraseIdx hn hi]
+  · rename_i key rest hk fs i hi kk old he nvc pv hc hm ih
+    simp only [V.nodupKeys] at hn
+    have hlt := fieldIndex_some_lt hi
+    have e1 : get (.doc (listSet fs i (kk, nvc))) (key :: rest) false k = get nvc rest false k := by
+      rw [get_cons_doc _ _ _ _ _ hk, getField_eq, listSet_eq_set, fieldIndex_set nvc he, hi]
+      simp [hlt]
+    rw [e1]
+    exact ih _ _ (nodupFields_getElem hn he) hc
+  · exact absurd rfl ‹¬ V.missing.isMissing = true›
+  · exact absurd rfl ‹¬ V.missing.isMissing = true›
+  · rename_i key rest hk xs index ha hr idx hlt old he nvc pv hc ih
+    have hidx : idx = index.toNat := rfl
+    clear_value idx; subst hidx
+    simp only [V.nodupKeys] at hn
+    rw [get_cons_arr _ _ _ _ hk, listSet_eq_set]
+    cases hp : parseIndex key with
+    | none => left; rfl
+    | some j =>
+      have := atoi_of_parseIndex hp
+      rw [ha] at this
+      injection this with this
+      subst this
+      simp only [Int.toNat_natCast] at he hlt ⊢
+      simp only [List.getElem?_set_self hlt]
+      cases hm : nvc.isMissing with
+      | true =>
+        simp only [if_true]
+        rcases get_null rest false k with h' | h'
+        · right; exact h'
+        · left; exact h'
+      | false =>
+        simp only [Bool.false_eq_true, if_false]
+        exact ih _ _ (nodupList_getElem hn he) hc
+  · exact absurd rfl ‹¬ V.missing.isMissing = true›
+  · exact absurd rfl ‹¬ V.missing.isMissing = true›
+
 end Lungo
